@@ -491,7 +491,7 @@ def run(ctx):
                 not_repro.append(e.get("id"))
         ctx.extra["known_findings_not_reproduced"] = not_repro
         corpus = [l.strip() for l in open(os.path.join(HERE, "corpus.ops")) if l.strip() and not l.startswith("#")]
-        n = ctx.scale(8000, 600000)
+        n = ctx.scale(8000, 300000)
         ops = corpus + [gen_eval(ctx.rng) for _ in range(n)] + [gen_dec(ctx.rng) for _ in range(n // 2)]
     ctx.log(f"{len(ops)} ops generated")
     impl = ctx.go_run(binary, "TestVerifC15", ops)
